@@ -27,6 +27,17 @@ def conv (x : F) : Option F → F
   | none => x
   | some f => x * f
 
+/-- units are represented by their scale relative to a base unit; the factor the code applies to an
+argument given with `unit`: none if `unit is None` or `unit == self._unit`, else `unit.to(self._unit)` -/
+def unitFactor (own : F) : Option F → Option F
+  | none => none
+  | some su => if su == own then none else some (su / own)
+
+/-- `FluxModel.to_internal_flux_unit()`: `(1/(angle² energy length² time)).to(internal)`;
+arguments: scales of the own and of the internal angle, energy, length, time unit -/
+def toInternalFlux (sa se sl st ia ie il it : F) : F :=
+  (ia * ia * ie * (il * il) * it) / (sa * sa * se * (sl * sl) * st)
+
 /-- `PowerLawEnergyFluxProfile.__call__`: `np.power(E / E0, -gamma)` -/
 def plCall (E0 γ E : F) : F := (E / E0) ^ (-γ)
 
@@ -324,6 +335,59 @@ def setOne (pd : PDict F) (acc : Cell F × Bool) (name : PName) : Cell F × Bool
 def Cell.setParams (pn : ParamNames) (c : Cell F) (pd : PDict F) : Cell F × Bool :=
   (c.names pn).foldl (setOne pd) (c, false)
 
+/-! ### `set_params` with arbitrary Python values: error paths with the post-state
+
+`pvalue != current_value` raises `ValueError` for an array-valued `pvalue` (truth value of an array),
+the property setters raise `TypeError` for a value that cannot be cast to float.  A Python exception
+keeps whatever was assigned before the `raise`: the post-state is returned next to the error. -/
+
+/-- what a dictionary value can be, as far as `set_params` distinguishes -/
+inductive PVal (F : Type) where
+  /-- castable to float (float, int, numpy scalar, numeric string): `float(v)` -/
+  | num (x : F)
+  /-- not castable to float (`'abc'`, `None`, an arbitrary object) -/
+  | bad
+  /-- a numpy array with more than one element -/
+  | arr
+deriving Repr
+
+inductive SetErr where
+  | typeError
+  | valueError
+deriving Repr, DecidableEq
+
+abbrev PDictV (F : Type) := List (PName × PVal F)
+
+/-- the state of the `set_params` loop: object, `updated`, raised exception -/
+structure SetSt (F : Type) where
+  cell : Cell F
+  updated : Bool
+  err : Option SetErr
+
+/-- one iteration of the loop for arbitrary values; after a `raise` nothing more happens -/
+def setOneV (pd : PDictV F) (st : SetSt F) (name : PName) : SetSt F :=
+  match st.err with
+  | some _ => st
+  | none =>
+    match st.cell.getAttr name with
+    | none => st
+    | some cur =>
+      match pd.lookup name with
+      | none => st
+      | some (.num v) => if v != cur then { st with cell := st.cell.setAttr name v, updated := true } else st
+      | some .arr => { st with err := some .valueError }
+      | some .bad => { st with err := some .typeError }
+
+/-- `MathFunction.set_params(pdict)` for arbitrary values: post-state, `updated` so far, exception -/
+def Cell.setParamsV (pn : ParamNames) (c : Cell F) (pd : PDictV F) : SetSt F :=
+  (c.names pn).foldl (setOneV pd) ⟨c, false, none⟩
+
+/-- the float part of a dictionary -/
+def PDictV.nums : PDictV F → PDict F
+  | [] => []
+  | (n, .num x) :: rest => (n, x) :: PDictV.nums rest
+  | (_, _) :: rest => PDictV.nums rest
+
 /-- `TimeFluxProfile.move(dt)`; `none` = the object has no `move` -/
 def Cell.move (c : Cell F) (dt : F) : Option (Cell F) :=
   match c with
@@ -347,6 +411,17 @@ def Heap.setParams (pn : ParamNames) (h : Heap F) (i : Nat) (pd : PDict F) : Hea
       match acc.1[j]? with
       | none => acc
       | some c => let r := c.setParams pn pd; (acc.1.set j r.1, acc.2 || r.2)) (h, false)
+
+/-- `FactorizedFluxModel.set_params` for arbitrary values: own `Phi0`, then the profiles, stopping at the
+first exception (the objects updated before keep their new values) -/
+def Heap.setParamsV (pn : ParamNames) (h : Heap F) (i : Nat) (pd : PDictV F) : Heap F × Bool × Option SetErr :=
+  (targets h i).foldl (fun (acc : Heap F × Bool × Option SetErr) j =>
+      match acc.2.2 with
+      | some _ => acc
+      | none =>
+        match acc.1[j]? with
+        | none => acc
+        | some c => let r := c.setParamsV pn pd; (acc.1.set j r.cell, acc.2.1 || r.updated, r.err)) (h, false, none)
 
 /-- `FactorizedFluxModel.get_param` / `MathFunction.get_param`: first object that knows the name -/
 def Heap.getParam (pn : ParamNames) (h : Heap F) (i : Nat) (name : PName) : Option F :=
